@@ -34,7 +34,7 @@ def own_trackers():
             try:
                 st = open(f"/proc/{d}/stat").read().rsplit(")", 1)[1].split()
                 if int(st[1]) == me and st[0] != "Z" and \
-                        b"resource_tracker" in open(f"/proc/{d}/cmdline", "rb").read():
+                        b"loky.backend.resource_tracker" in open(f"/proc/{d}/cmdline", "rb").read():
                     out.append(int(d))
             except (OSError, IndexError, ValueError):
                 pass
@@ -428,13 +428,101 @@ def part_life(args, out):
     os._exit(0)
 
 
+def child_report(path):
+    """Runs in a freshly started loky process: one tracked operation, then who is my tracker."""
+    import warnings
+    rep = dict(pid=os.getpid())
+    with warnings.catch_warnings(record=True) as w:
+        warnings.simplefilter("always")
+        try:
+            from loky.backend.synchronize import Lock
+            lk = Lock()
+            del lk
+            rep["ok"] = True
+        except BaseException as ex:     # noqa
+            rep["ok"] = repr(ex)
+    rep["warned"] = [str(x.message)[:80] for x in w]
+    rep.update(tracker_info(1))
+    if path is None:
+        return rep
+    with open(path, "w") as f:
+        json.dump(rep, f)
+
+
+def part_healop(args, out):
+    """C12: the tracker is killed; the FIRST tracked operation afterwards is of a given kind
+    (a lock, a bare register, getfd, starting a loky process, an executor spawning a worker),
+    with or without free descriptor numbers below the tracker's fd."""
+    import warnings
+    from loky.backend import resource_tracker as rt
+    from loky.backend import get_context
+    from loky.backend.synchronize import Lock
+    ctx = get_context(args.get("context", "loky"))
+    rt.ensure_running()
+    old, old_fd = rt._resource_tracker._pid, rt._resource_tracker._fd
+    keep = []
+    if args.get("fill"):
+        # an application that opened files meanwhile: no free number below the tracker's fd
+        for _ in range(12):
+            keep.append(os.open("/dev/null", os.O_RDONLY))
+    os.kill(old, signal.SIGKILL)
+    t0 = time.time()
+    while time.time() - t0 < 5:
+        try:
+            if open(f"/proc/{old}/stat").read().split(")")[-1].split()[0] == "Z":
+                break
+        except OSError:
+            break
+        time.sleep(0.02)
+    res = dict(old=old, old_fd=old_fd, op=args["op"])
+    child = None
+    tmp = out + ".child"
+    with warnings.catch_warnings(record=True) as w:
+        warnings.simplefilter("always")
+        try:
+            op = args["op"]
+            if op == "lock":
+                lk = Lock()
+                del lk
+            elif op == "register":
+                rt.register(tmp + ".scratch", "file")
+                rt.unregister(tmp + ".scratch", "file")
+            elif op == "getfd":
+                res["fd"] = rt.getfd()
+                os.write(res["fd"], b"PROBE:0:noop\n")
+            elif op == "process":
+                p = ctx.Process(target=child_report, args=(tmp,))
+                p.start()
+                p.join(60)
+                res["child_exit"] = p.exitcode
+                child = json.load(open(tmp)) if os.path.exists(tmp) else None
+            elif op == "executor":
+                from loky.process_executor import ProcessPoolExecutor
+                e = ProcessPoolExecutor(1, context=ctx)
+                child = e.submit(child_report, None).result(timeout=60)
+                e.shutdown(wait=True)
+            res["ok"] = True
+        except BaseException as ex:     # noqa
+            res["ok"] = repr(ex)
+    res["warned"] = [str(x.message)[:80] for x in w]
+    res["new"] = rt._resource_tracker._pid
+    res["new_fd"] = rt._resource_tracker._fd
+    res["child"] = child
+    res["own_trackers"] = own_trackers()
+    for fd in keep:
+        os.close(fd)
+    with open(out, "w") as f:
+        json.dump(res, f)
+    os._exit(0)
+
+
 def main():
     part, args, out = sys.argv[1], json.loads(sys.argv[2]), sys.argv[3]
     wd = threading.Timer(float(args.get("watchdog", 120)), lambda: os._exit(97))
     wd.daemon = True
     wd.start()
     dict(sem=part_sem, tracker=part_tracker, eol=part_eol, life=part_life,
-         startup=part_startup_signals)[part](args, out)
+         startup=part_startup_signals, healop=part_healop)[part](args, out)
 
 
 if __name__ == "__main__":
